@@ -81,6 +81,25 @@ Proof.
   apply (vcheck_s_sound d true stepB rstate_eqb rstate_eqb_ok rhash alphabet assume 400000 rinit);
     vm_cast_no_check (eq_refl true).
 Qed.
+{low_thm}"""
+# second case theorem for coroutine bodies of Lower.in_grammar: the emitted design against the lowered
+# machine of the Gallina model inside the reset clause (Models/LowerReset.v), product exploration
+CORO_LOW = """From Cohdl Require Import Equiv.RefTS Models.ResetRef Models.Lower Models.LowerProofs Models.LowerReset Models.LowerResetProofs.
+Example in_gr : in_grammar p = true. Proof. vm_cast_no_check (eq_refl true). Qed.
+Definition m : machine := Eval vm_compute in (lower p).
+Definition assumeZ (_ : list Z) (_ : list value) := true.
+Theorem case_low : forall ins, admissible (mstepZ_rst {is_async} {low} rs_all (lower p)) alphabet assumeZ minitZ ins ->
+  traceA (sstep d true) (power_up_s d) ins = traceB (mstepZ_rst {is_async} {low} rs_all (lower p)) minitZ ins.
+Proof.
+  assert (Hm : lower p = m) by (vm_compute; reflexivity). rewrite Hm.
+  apply (rcheck_s_sound d true (mstepZ_rst {is_async} {low} rs_all m) alphabet assumeZ 400000 minitZ); vm_cast_no_check (eq_refl true).
+Qed.
+"""
+CORO_DIAG_LOW = """Definition verdict_low := Eval vm_compute in (rcheck_s_bfs d true (mstepZ_rst {is_async} {low} rs_all m) alphabet assumeZ 400000 minitZ).
+Eval vm_compute in verdict_low.
+Eval vm_compute in (match verdict_low with
+  | VCex path => Some (traceA (sstep d true) (power_up_s d) path, traceB (mstepZ_rst {is_async} {low} rs_all m) minitZ path)
+  | _ => None end).
 """
 CORO_DIAG = """Eval vm_compute in (conc_all_ok (auto_Ts d) d).
 Definition verdict := Eval vm_compute in (vcheck_s_bfs d true stepB rstate_eqb rhash alphabet assume 400000 rinit).
@@ -165,21 +184,29 @@ def run(ck: common.Check, replay=None):
                     if sd.dir == "in" and sd.name == "rst":
                         sd.init = ("L", True)      # the test bench holds an active-low reset inactive at power-up
             path = os.path.join(ck.gen, name + ".v")
+            # C04_NO_LOWER=1 switches the second (lowering-model) theorem off: only for timing comparisons
+            m["lower"] = c01.in_grammar(m["prog"]) and os.environ.get("C04_NO_LOWER") is None
+            low_txt = CORO_LOW.format(is_async=b(m["is_async"]), low=b(m["low"])) if m["lower"] else ""
             with open(path, "w") as f:
                 f.write(CORO_TMPL.format(header=common.COQ_HEADER, design=R.design_to_coq(d), prog=c01.block_coq(m["prog"]),
-                                         cands="; ".join("bit_cands" for _ in d.inputs), is_async=b(m["is_async"]), low=b(m["low"])))
+                                         cands="; ".join("bit_cands" for _ in d.inputs), is_async=b(m["is_async"]), low=b(m["low"]),
+                                         low_thm=low_txt))
             coro_files.append((name, path, src, r["vhdl"], m))
     X.run_cases(ck, seq_cases, "design and reset reference differ on an input sequence",
                 key_of=lambda c: {"case": c.name}, count_first=3)
+    b_ = lambda x: "true" if x else "false"
     outs = common.coqc_many([f[1] for f in coro_files], timeout=2400)
     for (name, path, src, vhdl, m), (rc, out, err) in zip(coro_files, outs):
         if rc == 0:
             ck.obligation(True)
             ck.nontrivial(name)
+            if m["lower"]:
+                ck.obligation(True)
+                ck.count("coroutines_tied_to_lowering_model")
             common._cleanup_v(path)
             continue
-        ck.obligation(False)
         s = open(path).read()
+        full = s
         s = s[:s.index("Theorem case_ok")]
         dpath = path[:-2] + "_diag.v"
         open(dpath, "w").write(s + CORO_DIAG)
@@ -188,6 +215,30 @@ def run(ck: common.Check, replay=None):
         while o and not o[0].startswith("V"):
             o = o[1:]
         rep = {"case": name, "source": src, "vhdl": vhdl, "program": m["prog"], "async": m["is_async"], "active_low": m["low"]}
+        if o and o[0].startswith("VOk") and m["lower"]:
+            # the design agrees with the reset reference: the second theorem (lowering model) failed
+            ck.obligation(True)
+            ck.nontrivial(name)
+            ck.obligation(False)
+            a = full.index("Theorem case_ok")
+            z = full.index("Qed.", a) + len("Qed.\n")
+            t = (full[:a] + full[z:full.index("Theorem case_low")]).replace(
+                "Example in_gr : in_grammar p = true. Proof. vm_cast_no_check (eq_refl true). Qed.\n", "")
+            lpath = path[:-2] + "_diaglow.v"
+            open(lpath, "w").write(t + CORO_DIAG_LOW.format(is_async=b_(m["is_async"]), low=b_(m["low"])))
+            rc3, out3, err3 = common.coqc(lpath, 3000)
+            o3 = [x for x in common.coq_outputs(out3) if x.startswith("V") or x.startswith("Some")]
+            rep["correspondence"] = ("Models/Lower.v lower + Models/LowerReset.v mstepZ_rst  <->  IrGenerator lowering inside the "
+                                     "reset clause of std.sequential: emitted design vs mstepZ_rst (lower p)")
+            if o3 and o3[0].startswith("VCex"):
+                rep.update({"path": o3[0], "traces": o3[1] if len(o3) > 1 else ""})
+            else:
+                rep["log"] = (out + err + out3 + err3)[-1500:]
+            ck.violation({"case": name, "tie": "lower"},
+                         "emitted design equals the coroutine reset reference but differs from the Gallina model of the "
+                         "lowering with reset (model out of date or wrong)", rep, no_input=True)
+            continue
+        ck.obligation(False)
         if o and o[0].startswith("VCex"):
             rep.update({"path": o[0], "traces": o[1] if len(o) > 1 else ""})
             ck.violation({"case": name}, "coroutine with reset and its reference differ on an input sequence", rep)
@@ -198,7 +249,9 @@ def run(ck: common.Check, replay=None):
     ck.cov["rule"] = ("one theorem per generated design (sequential bodies and coroutines) x reset variant; the theorem covers reset at "
                       "every clock, for every duration, in every reachable state, followed by every input sequence")
     ck.trusted += ["fail-closed VHDL reader", "Vhdl.Sem (asynchronous resets observed through the mid-cycle sample)",
-                   "ResetRef/CoroReset as the rendering of the reset clause; SeqRef/Coro.ref for the non-reset step"]
+                   "ResetRef/CoroReset as the rendering of the reset clause; SeqRef/Coro.ref for the non-reset step",
+                   "Lower.lower + LowerReset.mstepZ_rst as a rendering of the lowering inside a reset clause: tied per coroutine "
+                   "case (case_low), proved for all programs against ref_step_rst (C04_lower_rst_correct)"]
     ck.assumptions += ["the reset input is inactive at power-up (the test bench drives an active-low reset high before the first clock)",
                        "objects without an initial value power up as zero (two-valued model), both in the design and in the reference",
                        "designs are sampled; locally declared signals inside contexts are not generated"]
